@@ -32,24 +32,29 @@ inline bool allInt(std::vector<std::string> const& t, std::size_t from, std::vec
 // cursor over the integer arguments of an op line
 struct Args{
 	std::vector<long long> a; std::size_t pos; bool bad;
-	Args(): pos(0), bad(false){}
+	int shift;                 // op name suffix `@s`: every data value v of the table stands for v * 2^-s
+	Args(): pos(0), bad(false), shift(0){}
 	long long next(){ if(pos >= a.size()){ bad = true; return 0; } return a[pos++]; }
 	std::size_t nat(){ long long v = next(); if(v < 0){ bad = true; return 0; } return (std::size_t)v; }
 	bool done() const{ return !bad && pos == a.size(); }
 };
 
-// "n d nb s_1 .. s_nb" + row-major values, `extra` more columns per row (labels / class / weight)
+// "n d nb s_1 .. s_nb" + row-major values, `extra` more columns per row (labels / class / weight).
+// The d input columns (and the extra columns if `scaleExtra`: regression labels) are scaled by 2^-A.shift.
 struct Table{
 	std::size_t n, d, extra; std::vector<std::size_t> sizes;
 	std::vector<std::vector<double> > rows;      // n rows of d+extra values
-	bool read(Args& A, std::size_t extraCols){
+	bool read(Args& A, std::size_t extraCols, bool scaleExtra = false){
 		n = A.nat(); d = A.nat(); extra = extraCols; std::size_t nb = A.nat();
 		if(A.bad || nb > 4096 || n > 100000 || d > 4096) return false;
 		sizes.clear(); std::size_t tot = 0;
 		for(std::size_t i = 0; i < nb; ++i){ sizes.push_back(A.nat()); tot += sizes.back(); if(sizes.back() == 0) return false; }
 		if(A.bad || tot != n || n == 0) return false;
 		rows.assign(n, std::vector<double>(d + extra));
-		for(std::size_t i = 0; i < n; ++i) for(std::size_t j = 0; j < d + extra; ++j) rows[i][j] = (double)A.next();
+		for(std::size_t i = 0; i < n; ++i) for(std::size_t j = 0; j < d + extra; ++j){
+			double v = (double)A.next();
+			rows[i][j] = (j < d || scaleExtra) ? std::ldexp(v, -A.shift) : v;
+		}
 		return !A.bad;
 	}
 	std::vector<RealVector> points() const{
@@ -158,9 +163,15 @@ int runProtocol(Dispatch dispatch){
 		std::unique_ptr<Session> S; if(steps.size() > 1) S.reset(new Session());
 		std::string res;
 		for(std::size_t k = 0; k < steps.size(); ++k){
-			Args A; std::string r;
-			if(steps[k].empty() || !allInt(steps[k], 1, A.a)) r = "bad-op";
-			else r = dispatch(steps[k][0], A, S.get());
+			Args A; std::string r; std::string name = steps[k].empty() ? std::string() : steps[k][0];
+			std::size_t at = name.find('@'); bool good = !name.empty();
+			if(at != std::string::npos){
+				std::vector<std::string> sh(1, name.substr(at + 1)); std::vector<long long> v;
+				if(allInt(sh, 0, v) && v[0] >= -60 && v[0] <= 60) A.shift = (int)v[0]; else good = false;
+				name = name.substr(0, at);
+			}
+			if(!good || !allInt(steps[k], 1, A.a)) r = "bad-op";
+			else r = dispatch(name, A, S.get());
 			if(k) res += " ;; ";
 			res += r;
 		}
